@@ -73,6 +73,8 @@ def _check_zero_tp(h, res, vs, scen, n_pred, n_ref, metrics):
     h.ok("tp_is_zero", zz(res.tp) == 0)
     h.ok("fp_is_pred_count", zz(res.fp) == n_pred)
     h.ok("fn_is_ref_count", zz(res.fn) == n_ref)
+    if not isinstance(res.tp, SNum) and int(res.tp) != 0:
+        return       # not a zero-tp result at all: the configured values do not apply, the count obligations above have failed
     for m in metrics:
         try:
             got = getattr(res, SQ[m])
